@@ -607,6 +607,15 @@ SMALL_CONFIGS = [
 ]
 
 
+V6_, Q_ = 'http://[::1]:8000', 'https://a?example'
+LITERAL_CONFIGS = [
+    ({'ao': V6_, 'ac': None, 'eh': None}, 'mw', 'alone'),
+    ({'ao': [V6_, Q_, 'https://*.example'], 'ac': [V6_], 'eh': 'X-One'}, 'mw', 'alone'),
+]
+LITERAL_ORIGINS = [V6_, Q_, 'https://*.example', 'http://1:8000', 'http://::8000', 'http://:8000', 'https://abexample', 'https://a.example',
+                   'https://x.example', 'http://[::1]:8000/']
+
+
 class DecisionTable(_StaticDirMixin, Suite):
     """Exhaustive product: CORS configuration (allow_origins '*' / string / sets of 1-3, allow_credentials
     None / '*' / string / sets overlapping or not, expose_headers none / str / list; explicit middleware
@@ -639,6 +648,11 @@ class DecisionTable(_StaticDirMixin, Suite):
             yield c
         for c in cells(SMALL_CONFIGS, REST_KINDS, ORIGINS if tier == 'thorough' else [None, A_, D_]):
             yield c
+        # origins are compared as plain strings: characters that mean something to glob / regex matchers (an IPv6
+        # literal's brackets, '?', '*', '.') are just characters
+        for c in cells(LITERAL_CONFIGS, CORE_KINDS[:4], LITERAL_ORIGINS):
+            if c['app']['target'] in ('route', 'route_opt') and c['app']['outcome'] is OUTCOMES[0]:
+                yield c
 
     def run(self, case):
         app_d, rq = case['app'], case['rq']
@@ -659,7 +673,8 @@ class DecisionTable(_StaticDirMixin, Suite):
 # ------------------------------------------------------------------ suite 2: sampled surroundings
 
 ORIGIN_POOL = [A_, B_, C_, D_, 'http://a.example', 'https://a.example:443', 'https://sub.a.example', 'a.example',
-               'null', 'https://a.example.evil.example', 'example.com']
+               'null', 'https://a.example.evil.example', 'example.com', 'http://[::1]:8000', 'http://1:8000', 'https://a?example',
+               'https://abexample', 'https://*.example']
 _token = st.text(alphabet='abcdefghijklmnopqrstuvwxyzABCDEFGHIJKLMNOPQRSTUVWXYZ0123456789-', min_size=1, max_size=10)
 _origin_any = st.one_of(
     st.sampled_from(ORIGIN_POOL),
